@@ -197,7 +197,7 @@ def iter_children(v):
         yield from v
 
 
-def iter_nodes(root, *, into_non_equality=False):
+def iter_nodes(root, *, into_non_equality=False, stop_at=None):
     """every dataclass instance reachable from *root* (each object once),
     pre-order"""
     seen: dict = {}
@@ -219,6 +219,8 @@ def iter_nodes(root, *, into_non_equality=False):
             pass
         if _is_dc(v):
             yield v
+        if stop_at is not None and isinstance(v, stop_at):
+            continue
         kids = list(iter_children(v))
         stack.extend(reversed(kids))
 
@@ -236,7 +238,10 @@ def pytato_nodes(root):
 def free_input_names(root):
     """names of Placeholder / SizeParam nodes reachable from root"""
     from pytato.array import Placeholder, SizeParam
-    return sorted({v.name for v in iter_nodes(root)
+    from pytato.function import FunctionDefinition
+    # (the placeholders inside a function definition are its parameters, bound
+    # at the call: not inputs of the graph)
+    return sorted({v.name for v in iter_nodes(root, stop_at=FunctionDefinition)
                    if isinstance(v, (Placeholder, SizeParam))})
 
 
